@@ -295,7 +295,7 @@ def main(prop='C09'):
         it['idx'] = i
     t0 = time.time()
     parts = parallel(work, items)
-    stats = {'queries': 0, 'unsat': 0, 'sat': 0, 'unknown': 0, 'solver_s': 0.0}
+    stats = dict.fromkeys(zq.STATS, 0)
     results = []
     for p in parts:
         results += p['results']
